@@ -81,7 +81,8 @@ def run(ctx):
                 mixeds.append({"kind": "mixed", "i": i, "j": j, "R": "i64", "R2": "i64"})
             if cat_pair and "kK" not in (pool[i - 1][0], pool[j - 1][0]):
                 # mixed reps (catalogue temperature units only: every scaled value stays far inside the common rep)
-                for r1, r2 in (("u16", "i32"), ("i16", "i64"), ("i32", "i64"), ("i32", "i16")):
+                # (the last four have an unsigned common rep: an ordering decided through a difference would wrap there)
+                for r1, r2 in (("u16", "i32"), ("i16", "i64"), ("i32", "i64"), ("i32", "i16"), ("u32", "u32"), ("u16", "u32"), ("u64", "u32"), ("u8", "u16")):
                     mixeds.append({"kind": "mixed", "i": i, "j": j, "R": r1, "R2": r2})
     # unsigned sources with the top bit set into narrower unsigned destinations, same origin (pure scaling down): always included
     must = []
@@ -94,7 +95,7 @@ def run(ctx):
         rnd.shuffle(convs)
         convs = [c for c in convs if c["i"] <= 3 and c["j"] <= 3] + convs[:90]
         rnd.shuffle(mixeds)
-        mixeds = [m for m in mixeds if m["j"] <= 3 and m["i"] <= 3] + mixeds[:30]
+        mixeds = [m for m in mixeds if m["j"] <= 3 and m["i"] <= 3] + [m for m in mixeds if m["R"][0] == "u" and m["R2"][0] == "u"][:24] + mixeds[:30]
     convs = must + convs
 
     def make_src(b):
